@@ -248,7 +248,8 @@ func (q *OutQueue) cleanAckedChunks() {
 		}
 	}
 	if len(q.acked) > MaxCachedChunks {
-		q.acked = q.acked[0:MaxCachedChunks]
+		// keep the most recent acks; the oldest ones must expire before the sequence numbers wrap
+		q.acked = q.acked[len(q.acked)-MaxCachedChunks:]
 	}
 
 	q.checkQueueFull()
